@@ -145,29 +145,38 @@ theorem quoted_ne (c : EncCfg) (s t : Str) (h : encodeStringBase c s true = .ok 
     omega
   · cases h
 
-/-- **C17, reader and writer agree**: whenever an encoder — any of the four, with any options —
-    writes a string *without quotes*, its own decoder reads that text back as the identical string. -/
-theorem C17_unquoted_roundtrip (c : EncCfg) (s : Str) (h : encodeString c s = .ok s) :
-    decodeSimple c.d s = .ok (.str s) := by
-  have key : ∀ b, needsQuotesBase c s = .ok b → b = false → decodeSimple c.d s = .ok (.str s) := by
-    intro b hb hf
-    subst hf
-    unfold needsQuotesBase at hb
-    split at hb
+/-- what `needs_quotes` returning `False` guarantees: both the encoder's own decoder and the default
+    loader's decoder read the bare text back as the identical string -/
+theorem bare_reads_back (c : EncCfg) (s : Str) (hb : needsQuotesBase c s = .ok false) :
+    decodeSimple c.d s = .ok (.str s) ∧ decodeSimple permissiveDec s = .ok (.str s) := by
+  unfold needsQuotesBase at hb
+  split at hb
+  · cases hb
+  · split at hb
     · cases hb
-    · split at hb
+    · simp only at hb
+      split at hb
       · cases hb
-      · simp only at hb
-        split at hb
+      · split at hb
         · cases hb
         · split at hb
+          · rename_i t ht
+            split at hb
+            · cases hb
+            · rename_i hts
+              have hts' : t = s := by simpa using hts
+              split at hb
+              · rename_i t' ht'
+                simp only [Except.ok.injEq, bne_eq_false_iff_eq] at hb
+                exact ⟨by rw [ht, hts'], by rw [ht', hb]⟩
+              · cases hb
+              · cases hb
           · cases hb
-          · split at hb
-            · rename_i t ht
-              simp only [Except.ok.injEq, bne_eq_false_iff_eq] at hb
-              rw [ht, hb]
-            · cases hb
-            · cases hb
+          · cases hb
+
+/-- an encoder that writes the string as it stands (no quotes) had `needs_quotes` answer `False` -/
+theorem bare_of_encodeString (c : EncCfg) (s : Str) (h : encodeString c s = .ok s) :
+    needsQuotesBase c s = .ok false := by
   unfold encodeString at h
   cases hk : c.kind <;> simp only [hk] at h
   · -- pvl
@@ -176,9 +185,7 @@ theorem C17_unquoted_roundtrip (c : EncCfg) (s : Str) (h : encodeString c s = .o
     | ok nq =>
       simp only [hn] at h
       cases nq
-      · have : needsQuotesBase c s = .ok false := by
-          simpa [needsQuotes, isOdlFamily, hk] using hn
-        exact key _ this rfl
+      · simpa [needsQuotes, isOdlFamily, hk] using hn
       · exact absurd rfl (quoted_ne c s s h)
   · -- odl
     cases hn : needsQuotes c s with
@@ -186,13 +193,11 @@ theorem C17_unquoted_roundtrip (c : EncCfg) (s : Str) (h : encodeString c s = .o
     | ok nq =>
       simp only [hn] at h
       cases nq
-      · have : needsQuotesBase c s = .ok false := by
-          unfold needsQuotes at hn
-          simp only [isOdlFamily, hk] at hn
-          by_cases hid : (!isIdentifier s) = true
-          · simp [hid] at hn
-          · simpa [hid] using hn
-        exact key _ this rfl
+      · unfold needsQuotes at hn
+        simp only [isOdlFamily, hk] at hn
+        by_cases hid : (!isIdentifier s) = true
+        · simp [hid] at hn
+        · simpa [hid] using hn
       · simp only at h
         split at h
         · simp only [Except.ok.injEq] at h
@@ -207,13 +212,11 @@ theorem C17_unquoted_roundtrip (c : EncCfg) (s : Str) (h : encodeString c s = .o
     | ok nq =>
       simp only [hn] at h
       cases nq
-      · have : needsQuotesBase c s = .ok false := by
-          unfold needsQuotes at hn
-          simp only [isOdlFamily, hk] at hn
-          by_cases hid : (!isIdentifier s) = true
-          · simp [hid] at hn
-          · simpa [hid] using hn
-        exact key _ this rfl
+      · unfold needsQuotes at hn
+        simp only [isOdlFamily, hk] at hn
+        by_cases hid : (!isIdentifier s) = true
+        · simp [hid] at hn
+        · simpa [hid] using hn
       · simp only at h
         split at h
         · simp only [Except.ok.injEq] at h
@@ -228,10 +231,20 @@ theorem C17_unquoted_roundtrip (c : EncCfg) (s : Str) (h : encodeString c s = .o
     | ok nq =>
       simp only [hn] at h
       cases nq
-      · have : needsQuotesBase c s = .ok false := by
-          simpa [needsQuotes, isOdlFamily, hk] using hn
-        exact key _ this rfl
+      · simpa [needsQuotes, isOdlFamily, hk] using hn
       · exact absurd rfl (quoted_ne c s s h)
+
+/-- **C17, reader and writer agree**: whenever an encoder — any of the four, with any options —
+    writes a string *without quotes*, its own decoder reads that text back as the identical string. -/
+theorem C17_unquoted_roundtrip (c : EncCfg) (s : Str) (h : encodeString c s = .ok s) :
+    decodeSimple c.d s = .ok (.str s) :=
+  (bare_reads_back c s (bare_of_encodeString c s h)).1
+
+/-- … and so does the decoder of the default loader (`OmniDecoder` over `OmniGrammar`), whatever the
+    writing dialect -/
+theorem C17_unquoted_roundtrip_default (c : EncCfg) (s : Str) (h : encodeString c s = .ok s) :
+    decodeSimple permissiveDec s = .ok (.str s) :=
+  (bare_reads_back c s (bare_of_encodeString c s h)).2
 
 end Enc
 end Pvl
